@@ -645,6 +645,8 @@ def gen_writer_case(rng, nmax=12):
             "read_c": rng.choice([1, 2, 3, max(1, n)]),
             # extension: separator option, index labels of the appended frames, `with writer:` instead of explicit calls
             "sep": rng.choice(SEPS), "index": rng.choice(INDEX_MODES), "ctx": rng.choice(["explicit", "with"])}
+    if kind == "records" and rng.random() < 0.4:
+        case["rec_narrow"] = True
     if rng.random() < 0.15 and ncols >= 2 and bufsize <= 1 and any(a["rows"] for a in appends):
         # one append with its columns in another order: the text writer refuses it, the Parquet writer goes by name
         perm = list(range(ncols))
@@ -718,7 +720,21 @@ def writer_args(case):
             objs.append([dict(zip(nm, r)) for r in rows])
             wire.append([Atom("dicts"), wrows])
         else:
-            rec = make_df(nm, ty, rows, str_object=True).to_records(index=False)[0]
+            df1 = make_df(nm, ty, rows, str_object=True)
+            cd = {}
+            if case.get("rec_narrow"):
+                # records as they come from differently typed sources (a text file read in chunks: whole numbers
+                # parse as integers in one chunk, as floats in the next; fixed-width strings of each value's own
+                # width): the field dtypes of successive records differ, values must still come back unchanged
+                frac_cols = {names[j] for j in range(len(names)) if types[j] == "float"
+                             and any(not float(a2["rows"][0][j]).is_integer() for a2 in case["appends"] if a2["rows"])}
+                for n_, t_, v_ in zip(nm, ty, rows[0]):
+                    # (only in columns that also hold a fractional value: the column as a whole stays a float column)
+                    if t_ == "float" and n_ in frac_cols and float(v_).is_integer() and 0 < abs(float(v_)) < 2 ** 52:
+                        cd[n_] = "int64"
+                    elif t_ == "str":
+                        cd[n_] = f"<U{max(1, len(str(v_)))}"
+            rec = df1.to_records(index=False, column_dtypes=cd)[0]
             objs.append(rec)
             wire.append([Atom("record"), wrows[0]])
     return objs, wire
